@@ -1,6 +1,6 @@
 """C02 - path navigation returns exactly the elements of the resource's FHIR JSON tree."""
 import copy
-from lib import driver as D
+from lib import driver as D, machine as M
 
 MUTANTS = ["firstChildOnly", "reverseOrder", "noFlatten"]
 
@@ -35,6 +35,8 @@ def run(ctx):
     by_id = {o["id"]: {k: v for k, v in o.items() if k != "steps"} for o in obs}
     keys = [(o["ti"], o["kind"], o["src"]) for o in obs if o["out"]["k"] == "ok" and o["out"]["items"]]
     ctx.extra["resources"] = ntrees
+    # programs of the whole abstract machine whose last step is one of this property's operations (lib/machine.py)
+    verdicts = M.extend(ctx, verdicts, by_id)
     return D.finish(ctx, verdicts, by_id, evaluations=len(obs),
                     rule="resources: MR1-3 plus schema-driven fully populated instances (quick: 27 types rotating with the seed + 6 randomly "
                          "thinned; thorough: all 146 types x 2 instances + 60 thinned); cases: TLC walks every name path of every tree and emits "
